@@ -213,7 +213,9 @@ CLAIMED["C08"] = dict(
 )
 
 CLAIMED["C05"] = dict(
-    text="Lean theorems C05_io_width / C05_io_decodes / C05_output_shape: for every type and well-typed value, an argument or "
+    text="Lean theorems C05_typed_output_width (a function the typing judgement of the compiler model accepts has, for ANY wires "
+         "on its parameters, exactly size(return type) output wires: the model's verdict does not depend on the wires, "
+         "Proofs/BitStatic.lean) and C05_io_width / C05_io_decodes / C05_output_shape: for every type and well-typed value, an argument or "
          "result of type t occupies exactly t.size wires, the output of a run is 161 panic wires followed by exactly t.size "
          "wires, and they decode to the value. C05_output_width (Proofs/BitWidth.lean): in the compiler model (Model/BitSem.lean, "
          "every expression and statement form except for-join) the compiled body of a function has exactly size(T) output wires "
@@ -280,7 +282,12 @@ CLAIMED["C17"] = dict(
     text="Lean theorems C17_unbound_identifier, C17_condition_not_bool, C17_operand_types, C17_refutable_let, "
          "C17_refutable_loop_pattern, C17_unknown_function, C17_argument_count, C17_assign_unbound, C17_no_arm: in the source "
          "semantics a program that breaks one of these static rules has no meaning - evaluation ends in Err.stuck, neither a "
-         "value nor a panic - so accepting it would compile something the specification does not define. PARTIAL: check.rs is "
+         "value nor a panic - so accepting it would compile something the specification does not define. C17_typed_never_stuck / "
+         "C17_typed_result_type (Props/C17Typed.lean): a typing judgement for which the converse holds - Bit.fnTyped runs the "
+         "compiler model once, on all-zero wires, and asks for wires of the declared return type; a function it accepts, called on "
+         "ANY argument values of its parameter types with any fuel, never gets stuck and returns a value of the declared type "
+         "(static_program, Proofs/BitStatic.lean: whether the model covers a body, and its result type, depend only on the types "
+         "of the variables in scope, never on their wires; composed with the refinement theorem of C01). PARTIAL: check.rs is "
          "not modelled; that it rejects every rule violation is explored by mutation: into generated well-typed programs a "
          "fixed typed prelude plus ONE rule-breaking statement or top-level item is inserted (120 shapes: operand / argument / "
          "field / branch / pattern / return types, non-Boolean conditions, unknown and out-of-scope identifiers, fields, "
@@ -292,7 +299,7 @@ CLAIMED["C17"] = dict(
          "replaced: an identifier by another identifier or an unbound one, a number's suffix, a type annotation, a binary "
          "operator, a tuple index, a cast target, a dropped `mut`); whatever check.rs accepts is translated from check.rs' own "
          "typed tree (harness op typed_ast) and must be typed by Bit.progTyped, the typing judgement the compiler model induces "
-         "(theorem C01_core_defined: a program it accepts never gets stuck); an accepted program it rejects is reported, with an "
+         "(theorem C17_typed_never_stuck: a program it accepts never gets stuck on any input); an accepted program it rejects is reported, with an "
          "input on which the source semantics get stuck when one is found.",
     design_ref="DESIGN.md §6 C17",
     note="trusted: Lean kernel; the list of rule-breaking shapes is hand-written (tools/gv/c17.py), one violation per program; "
